@@ -1,6 +1,7 @@
 (* Exception flow of World.run / scheduler.run / World.shutdown (scenario.py:584-708, 793-803; scheduler.py:28-80).
    The simulators and their proxies are an oracle: each sim_process ends normally, with an exception, or is still
    waiting when another one fails; each stop() returns, swallows its own exception, or raises. *)
+(* The exception flow of World.shutdown, World.run and scheduler.run is compared with the source by harness/py2coq_sched.py (run_skeletons). *)
 From Coq Require Import List Bool Arith.
 Import ListNotations.
 
@@ -26,12 +27,13 @@ Record run_result := mkRR {
   stops : list nat;               (* simulators whose stop() was called, in order *)
   loop_closed : bool }.
 
-(* World.shutdown: stop every simulator in order; an exception from stop() aborts the rest *)
+(* World.shutdown (as repaired by /repo 72a0013, finding F25): every simulator is stopped, in order, whatever the stop() of
+   another one does; the errors are collected, the loop is stopped and closed, then the first error is raised *)
 Fixpoint shutdown (k : nat) (stops_ : list stop_out) : list nat * option exn :=
   match stops_ with
   | [] => ([], None)
-  | SReturns :: r => let (l, e) := shutdown (S k) r in (k :: l, e)
-  | SRaises e :: _ => ([k], Some e)
+  | s :: r => let (l, e) := shutdown (S k) r in
+              (k :: l, match s with SRaises e0 => Some e0 | SReturns => e end)
   end.
 
 Definition world_run (procs : list proc_out) (stops_ : list stop_out) : run_result :=
@@ -43,6 +45,6 @@ Definition world_run (procs : list proc_out) (stops_ : list stop_out) : run_resu
      | Some e => (false, Some e) end in
   let (stopped, stop_exn) := shutdown 0 stops_ in
   match stop_exn with
-  | Some e => mkRR (Some e) (match sched with Some ERemoteException => true | _ => false end) false stopped false
+  | Some e => mkRR (Some e) (match sched with Some ERemoteException => true | _ => false end) false stopped true    (* raised after the loop is closed *)
   | None => mkRR pending (match sched with Some ERemoteException => true | _ => false end) success stopped true
   end.
